@@ -21,7 +21,8 @@ import (
 
 type params struct {
 	Role    string     `json:"role"` // client | server
-	A, E    int        `json:"a"`    // own authentication / encryption level (index into hs.Levels)
+	A       int        `json:"a"`    // own authentication level (index into hs.Levels)
+	E       int        `json:"e"`    // own encryption level
 	Integ   bool       `json:"integ,omitempty"`
 	Methods int        `json:"methods"`
 	Dev     puppet.Dev `json:"dev"`
